@@ -1105,11 +1105,12 @@ fn get_mean(raw_output_buffer: &Vec<HashMap<String, String>>, buffer_key: &Strin
 /// Get the sum of all values in the buffer, based on the buffer key.
 /// If the value can't be parsed as usize, it will be ignored.
 fn get_buffer_sum(raw_output_buffer: &Vec<HashMap<String, String>>, buffer_key: &String) -> usize {
-    let mut sum = 0;
+    let mut sum: usize = 0;
     for value in raw_output_buffer {
         if let Some(value) = value.get(buffer_key) {
             if let Ok(value) = value.parse::<usize>() {
-                sum += value;
+                // a total beyond usize::MAX stays at the maximum instead of overflowing
+                sum = sum.saturating_add(value);
             }
         }
     }
